@@ -96,6 +96,12 @@ class Family:
             if op == "getitem":
                 return self.unval(ctx[k]), "value"
             if op == "get":
+                # every other time the caller's default is the very object stored under the key (a default is a value like any
+                # other: it must not be taken for "nothing stored")
+                own = dict.get(ctx, k, self.sentinel)
+                self.ngets = getattr(self, "ngets", 0) + 1
+                if own is not self.sentinel and self.ngets % 2 == 0:
+                    return self.unval(ctx.get(k, own)), "value"
                 v = ctx.get(k, self.sentinel)
                 if v is self.sentinel:
                     return NOKEY, "default"
